@@ -200,3 +200,67 @@ Example json_doc_rejects_injection :
   (* {"error":"a","x":"b"} — a message that broke out of the string *)
   json_error_doc_ok (error_key ++ [34;97;34;44;34;120;34;58;34;98;34;125]) = false.
 Proof. reflexivity. Qed.
+
+(* ------------------------------------------------------------------------------------------ *)
+(** * The general recogniser accepts both error bodies *)
+
+Lemma jmid_app : forall a st b,
+  jmid st (a ++ b) = match jmid st a with Some st' => jmid st' b | None => None end.
+Proof.
+  induction a as [|x a IH]; intros st b; [reflexivity|].
+  cbn [app jmid]. destruct (jstep st x); try reflexivity; apply IH.
+Qed.
+
+Lemma jmid_body : forall fuel s, (length s <= fuel)%nat -> jmid JBody (json_body fuel s) = Some JBody.
+Proof.
+  induction fuel as [|f IH]; intros s Hl.
+  - destruct s; [reflexivity | cbn [length] in Hl; lia].
+  - destruct s as [|b0 r]; [reflexivity|].
+    cbn [json_body].
+    destruct (utf8_len (b0 :: r)) as [|[|n]] eqn:U.
+    + rewrite jmid_app, mid_fffd. apply IH. cbn [length] in Hl. lia.
+    + apply utf8_len_1 in U. rewrite jmid_app, (mid_ascii b0 U). apply IH. cbn [length] in Hl. lia.
+    + destruct (ls_ps (b0 :: r)) as [h|] eqn:L.
+      * apply ls_ps_hex in L as [Hh H3]. rewrite jmid_app, (mid_lsps h Hh).
+        apply IH. rewrite skipn_length. lia.
+      * rewrite jmid_app, (utf8_mid _ _ U). apply IH. rewrite skipn_length. lia.
+Qed.
+
+(* a chunk that keeps the string automaton inside the string keeps the document automaton inside it *)
+Lemma prun_str_mid : forall chunk j j' key stk rest,
+  jmid j chunk = Some j' -> prun (PStr j key, stk) (chunk ++ rest) = prun (PStr j' key, stk) rest.
+Proof.
+  induction chunk as [|b r IH]; intros j j' key stk rest H.
+  - cbn in H. inversion H. reflexivity.
+  - cbn [jmid] in H. cbn [app prun pstep].
+    destruct (jstep j b) eqn:E; try discriminate H; apply IH; exact H.
+Qed.
+
+Lemma json_doc_ok_auth : forall msg, json_doc_ok (auth_error_json msg) = true.
+Proof.
+  intros msg. unfold json_doc_ok, auth_error_json, json_string, error_key.
+  change (prun (PValue, []) ([123;34;101;114;114;111;114;34;58] ++ (34 :: json_body (length msg) msg ++ [34]) ++ [125;10]))
+    with (prun (PStr JBody false, [true]) ((json_body (length msg) msg ++ [34]) ++ [125;10])).
+  rewrite <- app_assoc.
+  rewrite (prun_str_mid _ JBody JBody false [true] _ (jmid_body _ msg (le_n _))).
+  reflexivity.
+Qed.
+
+Lemma json_doc_ok_proxy : forall msg, json_doc_ok (proxy_xhr_json msg) = true.
+Proof. intros msg. reflexivity. Qed.
+
+Example json_doc_accepts_nested :
+  (* {"a":[1,-2.5e+3,true,null,{"b":"x"}],"c":{}}  *)
+  json_doc_ok [123;34;97;34;58;91;49;44;45;50;46;53;101;43;51;44;116;114;117;101;44;110;117;108;108;44;123;34;98;34;58;34;120;34;125;93;44;34;99;34;58;123;125;125] = true.
+Proof. reflexivity. Qed.
+Example json_doc_rejects_js_apostrophe_escape :   (* {"l":"O\'B"} *)
+  json_doc_ok [123;34;108;34;58;34;79;92;39;66;34;125] = false.
+Proof. reflexivity. Qed.
+Example json_doc_rejects_two_documents : json_doc_ok [123;125;10;123;125] = false.
+Proof. reflexivity. Qed.
+Example json_doc_rejects_trailing_text : json_doc_ok [123;125;32;120] = false.
+Proof. reflexivity. Qed.
+Example json_doc_rejects_leading_zero : json_doc_ok [48;49] = false.
+Proof. reflexivity. Qed.
+Example json_doc_rejects_go_error_text : json_doc_ok [106;115;111;110;58;32;101;114;114] = false.
+Proof. reflexivity. Qed.
